@@ -274,6 +274,12 @@ class TList(Type):
     def arr_sort(self):
         return z3.ArraySort(z3.IntSort(), self.elem.sort())
 
+    def coerce(self, v, ctx):
+        if isinstance(v, (list, tuple)):
+            from .ops import slist_from_py
+            return slist_from_py(list(v), self.elem, ctx)
+        return v
+
     def fresh(self, ctx, hint):
         n = ctx.fresh(hint + "_len", z3.IntSort())
         a = ctx.fresh(hint + "_arr", self.arr_sort())
